@@ -133,6 +133,7 @@ func ExportTables(ctx *core.Ctx) *Tables {
 				ctx.ToolError("M2 export: bad chain row: %v: %s", err, clip(p))
 				return nil
 			}
+			r.Text = c16.ChainText(r.Chain) // Soy source of the chain (string arguments quoted)
 			t.Chains = append(t.Chains, r)
 		}
 	}
@@ -417,6 +418,7 @@ func Run(ctx *core.Ctx) {
 		"'contextual' and its old spelling 'deprecated-contextual' count as on; the mode of a callee is derived from its own template/namespace attributes only (pinned by TestAutoescapeModes)",
 		"NUL and non-UTF-8 bytes are identified with U+FFFD when texts are compared; a render that returns an error is not judged here")
 	ctx.Trusted = append(ctx.Trusted, "Go decoders of harness/c16/decoders.go (cross-checked against the TLA+ decoders on every M3 line)")
+	RegisterCustom()
 	if ctx.ReplayPath != "" {
 		Replay(ctx)
 		return
@@ -431,7 +433,9 @@ func Run(ctx *core.Ctx) {
 		vals := Values(t, ctx.Thorough())
 		ctx.Extra["replay_values"] = len(vals)
 		off, y, errs := offTables(real, t, vals)
+		CancelTable(ctx, t)
 		Grid(ctx, real, t, vals, off, y, errs)
+		MsgBundles(ctx, real, t, vals)
 		RandomTraces(ctx, real, t, ctx.Pick(4000, 50000))
 	}
 	wg.Wait()
@@ -442,7 +446,8 @@ func Run(ctx *core.Ctx) {
 // M1
 
 var devs = []string{"iwb_returns_input", "iwb_counts_escaped", "escaper_drops_apos", "callee_inherits", "truncate_cancels",
-	"escapehtml_keeps_autoescape", "nonstring_raw", "nl2br_unescaped", "ns_attr_ignored", "deprecated_contextual_unspecified"}
+	"escapehtml_keeps_autoescape", "nonstring_raw", "nl2br_unescaped", "ns_attr_ignored", "deprecated_contextual_unspecified",
+	"nonstring_input_raw", "placeholder_name_ignores_directives"}
 
 // ModelCheck runs the reference model (must hold) and the deviations (each
 // must be rejected).
@@ -457,7 +462,8 @@ func ModelCheck(ctx *core.Ctx) {
 			ctx.ToolError("M1: the reference model violates %s (spec bug): %s", res.Violated, clip(res.Trace))
 		}
 	}
-	wg.Add(2)
+	wg.Add(3)
+	go ref("M1-msgs", "msgs", 1, 2)
 	go ref("M1-sites", "sites", 1, 2)
 	go ref("M1-chains", "chains", ctx.Pick(2, 3), ctx.Pick(4, 10))
 	rejected := map[string]string{}
@@ -469,6 +475,9 @@ func ModelCheck(ctx *core.Ctx) {
 			mode := "chains"
 			if dev == "callee_inherits" || dev == "ns_attr_ignored" || dev == "deprecated_contextual_unspecified" {
 				mode = "sites"
+			}
+			if dev == "placeholder_name_ignores_directives" {
+				mode = "msgs"
 			}
 			res, err := c16.RunTLC(ctx, core.TLCOpts{Module: "C03Model", Cfg: cfg03(dev, mode, 1), Workers: 1, Timeout: 5 * time.Minute, Label: "M1-dev-" + dev})
 			if err != nil {
@@ -492,7 +501,7 @@ func ModelCheck(ctx *core.Ctx) {
 
 func isSiteChain(text string) bool {
 	switch text {
-	case "", "|noAutoescape", "|escapeHtml", "|insertWordBreaks:3", "|insertWordBreaks:30", "|truncate:5", "|escapeUri", "|changeNewlineToBr|id":
+	case "", "|noAutoescape", "|escapeHtml", "|insertWordBreaks:3", "|insertWordBreaks:30", "|truncate:5", "|escapeUri", "|changeNewlineToBr|id", "|vfQuote":
 		return true
 	}
 	return false
